@@ -159,7 +159,11 @@ func c20Knock(in, out string) error {
 	wg.Wait()
 	injected := time.Since(start)
 	// first quiet period (5 s after the last probe) and a second one for stragglers / double reports
-	time.Sleep(5500*time.Millisecond + injected)
+	if c20ShortWait {
+		time.Sleep(5500 * time.Millisecond)
+	} else {
+		time.Sleep(5500*time.Millisecond + injected)
+	}
 	mark1 := hub.Len()
 	time.Sleep(5500 * time.Millisecond)
 	byName := map[string]int{}
@@ -336,12 +340,15 @@ func c20USet(in, out string, seqLen int) error {
 	return nil
 }
 
+var c20ShortWait bool
+
 func c20Main(args []string) error {
 	fs := flag.NewFlagSet("c20", flag.ExitOnError)
 	in := fs.String("in", "", "input ndjson")
 	out := fs.String("out", "", "output")
 	uset := fs.Bool("uset", false, "UniqueSet transition table mode")
 	seqLen := fs.Int("seqlen", 4, "UniqueSet: exhaustive sequences up to this length")
+	fs.BoolVar(&c20ShortWait, "shortwait", false, "wait one quiet period (not one plus the injection time) before the first mark")
 	fs.Parse(args)
 	quietLogs()
 	if *uset {
